@@ -76,7 +76,8 @@ V10_PARSE_SECTIONS = ["V10_parse.parse_tag_section.*", "V10_parse.fn:parse_tag_s
                       "V10_parse.parse_memory_section.*", "V10_parse.fn:parse_memory_section", "V10_parse.parse_function_section.*", "V10_parse.fn:parse_function_section",
                       "V10_parse.parse_data_section.*", "V10_parse.fn:parse_data_section", "V10_parse.DataSegment.from_wasmparser.*", "V10_parse.fn:DataSegment::from_wasmparser",
                       "V10_parse.DataSegmentKind.from_wasmparser.*", "V10_parse.fn:DataSegmentKind::from_wasmparser", "V10_parse.fn:lemma_first_bad_data",
-                      "V10_parse.InitExpr.eval.*", "V10_parse.fn:InitExpr::eval", "V10_parse.fn:eval_spec"]
+                      "V10_parse.InitExpr.eval.*", "V10_parse.fn:InitExpr::eval", "V10_parse.fn:eval_spec",
+                      "V10_parse.parse_table_section.*", "V10_parse.fn:parse_table_section", "V10_parse.fn:Table::new"]
 # what PARSING establishes for the three index spaces: ids are positions, imports first (the base case of fwf / gwf / mwf and of reindex_ready)
 PARSE_IDS_FUNCS = ["V10_parse.build_functions.*", "V10_parse.fn:build_functions", "V10_parse.parse_import_section.*", "V10_parse.fn:parse_import_section", "V10_parse.ModuleImports.new.*",
                    "V10_parse.fn:ModuleImports::new", "V10_parse.fn:ModuleImports::iter", "V10_parse.fn:lemma_n_func_imports_le", "V10_parse.fn:Function::new", "V10_parse.fn:ImportedFunction::new"]
@@ -112,7 +113,7 @@ PROPS = {
         "kani": ["k1_valtype_roundtrip", "k1_valtype_roundtrip_exn_cont", "k1_valtype_encoder_matches_upstream", "k4_v128_bytes_preserved", "k4_ieee32_from_float_bits", "k4_ieee64_from_float_bits"],
         "obligations": ["K:k1_*", "K:k4_*", "V3_remap.lemma.identity_remap_is_noop", "V3_remap.fn:lemma_identity_remap_is_noop", "V3_remap.fix_op_id_mapping.*", "V3_remap.fn:fix_op_id_mapping", "V3_remap.update_*", "V3_remap.fn:update_*", "V3_remap.refers_to_*", "V3_remap.fn:refers_to_*",
                         "V9b_conv.*.into_wasmparser.*", "V9b_conv.fn:* as From::from"],
-        "glue": V11_TRUST + V12_TRUST + ["of parse_internal the import, function, memory, global, export, element, data and tag arms are regions under contract, with InitExpr::eval (every constant instruction is read into its IR counterpart with its own immediates in their own positions; anything else is an error) (the import arm with ModuleImports::new: each counter is the number of imports of its kind, nothing counted as added) (V10: the IR holds exactly the entries the section reader yields, in order, with their own contents, and a read error anywhere - also in an element segment's own item reader - makes the parse fail), against a TRUSTED model of wasmparser's section readers (a reader denotes a finite sequence of entries / read errors and iterating yields it front to back; `collect` of a reader is ASSUMED to gather it); the `.map(closure).collect::<Result<_, _>>()?` / `extend(..map(..))` chains of those arms are written as loops by rules R24 / R25; Result::and_then is ASSUMED with its textbook meaning; the type, table and code-entry arms, the start / data-count payloads, the name and custom sections are NOT under contract; of encode_internal every section's emission loop is a region under contract (V11 / V12) against TRUSTED models of wasm-encoder's section builders; that the sections are appended to the module in the standard order, and the `if !..is_empty()` guards around them, are read off the text",
+        "glue": V11_TRUST + V12_TRUST + ["of parse_internal the import, function, memory, global, export, element, data and tag arms are regions under contract, with InitExpr::eval (every constant instruction is read into its IR counterpart with its own immediates in their own positions; anything else is an error) (the import arm with ModuleImports::new: each counter is the number of imports of its kind, nothing counted as added) (V10: the IR holds exactly the entries the section reader yields, in order, with their own contents, and a read error anywhere - also in an element segment's own item reader - makes the parse fail), against a TRUSTED model of wasmparser's section readers (a reader denotes a finite sequence of entries / read errors and iterating yields it front to back; `collect` of a reader is ASSUMED to gather it); the `.map(closure).collect::<Result<_, _>>()?` / `extend(..map(..))` chains of those arms are written as loops by rules R24 / R25; Result::and_then is ASSUMED with its textbook meaning; of the table arm only the number of stored tables and the error behaviour are decided (what a stored table holds is computed by a closure handed to Result::map, whose result Verus does not know without an annotation in the source); the type and code-entry arms, the start / data-count payloads, the name and custom sections are NOT under contract; of encode_internal every section's emission loop is a region under contract (V11 / V12) against TRUSTED models of wasm-encoder's section builders; that the sections are appended to the module in the standard order, and the `if !..is_empty()` guards around them, are read off the text",
                  "InitExpr::eval / to_wasmencoder_type (constant expressions) are not under contract: only the bit-exactness of the float / v128 wrappers they use is proved"],
         "design_ref": "DESIGN.md §4 K1 K4, §5 C02",
         "level_text": "Instructions survive encode's in-place id rewrite when nothing was edited (identity maps leave every operator unchanged: corollary of the exact remap contract), value types survive the IR, float / v128 constants keep their bits. Of the sections, the ENCODE side is under contract region by region (every stored type group, import, function type index, table, memory, tag, global, export, start function, element segment, function body, data segment and custom section is emitted in stored order with its own contents); of the PARSE side the import, function, memory, global, export, element, data and tag arms are under contract (the IR holds exactly what the section readers yield, in order), the other arms are glue.",
